@@ -2,6 +2,8 @@ import BFL.Model.GPF
 import BFL.Bridge.Mat
 import BFL.Bridge.Transc
 import BFL.Proofs.GPF
+import Mathlib.MeasureTheory.Measure.Map
+import Mathlib.MeasureTheory.Constructions.BorelSpace.Real
 /-
 C08 — the Gaussian particle filter propagates beliefs and importance weights correctly.
 
@@ -136,6 +138,33 @@ theorem gpf_sample_outer (μ : Vec ℝ n) (S : Mat ℝ n n) (z : Vec ℝ n) :
   have hx : toV (gpfSample μ S z) - toV μ = toM S *ᵥ toV z := by
     simp [gpfSample]
   rw [hx, Matrix.mul_vecMulVec, Matrix.vecMulVec_mul, Matrix.vecMul_transpose]
+
+/-- The distributional clause, for *every* law `ν` of the draws: the law of the squared Mahalanobis
+    distance of the new position under its corrected belief is the law of `zᵀz`.  With `ν` the
+    `n`-dimensional standard normal law (the trusted contract of `std::normal_distribution`) this is,
+    by definition, the chi-square law with `n` degrees of freedom. -/
+theorem gpf_mahalanobis_law (ν : MeasureTheory.Measure (Fin n → ℝ)) (μ : Vec ℝ n) (S P : Mat ℝ n n)
+    (hP : (toM P).PosDef) (hS : SqrtOf S P) :
+    ν.map (fun z => (toV (gpfSample μ S (Vec.of z)) - toV μ) ⬝ᵥ
+              ((toM P)⁻¹ *ᵥ (toV (gpfSample μ S (Vec.of z)) - toV μ)))
+      = ν.map (fun z => z ⬝ᵥ z) := by
+  have h : (fun z : Fin n → ℝ => (toV (gpfSample μ S (Vec.of z)) - toV μ) ⬝ᵥ
+              ((toM P)⁻¹ *ᵥ (toV (gpfSample μ S (Vec.of z)) - toV μ))) = fun z => z ⬝ᵥ z := by
+    funext z
+    exact (gpf_mahalanobis μ S P (Vec.of z) hP hS).2.2
+  rw [h]
+
+/-- The factor the code builds from Eigen's LDLᵀ (`Pᵀ L √D`) meets the contract `SqrtOf`, given the
+    decomposition's own contract `A = Pᵀ L D Lᵀ P`, `D ≥ 0` (trusted of Eigen; checked numerically
+    through the Mahalanobis identity on every observed draw).  Holds for singular `A` as well. -/
+theorem gpf_ldlt_factor (A L Pm : Mat ℝ n n) (d : Fin n → ℝ) (hd : ∀ i, 0 ≤ d i)
+    (h : toM A = (toM Pm)ᵀ * toM L * diagonal d * (toM L)ᵀ * toM Pm) :
+    SqrtOf (Mat.of (fun i j => ((toM Pm)ᵀ * toM L * diagonal (fun i => Real.sqrt (d i))) i j)) A := by
+  unfold SqrtOf
+  have : toM (Mat.of (fun i j => ((toM Pm)ᵀ * toM L * diagonal (fun i => Real.sqrt (d i))) i j))
+      = (toM Pm)ᵀ * toM L * diagonal (fun i => Real.sqrt (d i)) := rfl
+  rw [this]
+  exact GPFProofs.ldlt_factor (toM A) (toM L) (toM Pm) d hd h
 
 /-- The same statement for the quadratic form the code computes with its own inverse routine. -/
 theorem gpf_quad_eq (inv : Mat ℝ n n → Mat ℝ n n) (μ : Vec ℝ n) (S P : Mat ℝ n n) (z : Vec ℝ n)
